@@ -243,10 +243,51 @@ class FakeLock:
         self.release()
 
 
-class FakeThreadingModule:
+class FakeRLock(FakeLock):
+    """scheduler-aware re-entrant lock"""
+
+    def __init__(self):
+        FakeLock.__init__(self)
+        self.depth = 0
+
+    def acquire(self, blocking=True, timeout=-1):
+        s = FakeLock.sched
+        t = s.me() if s is not None else None
+        me = t.idx if t is not None else "main"
+        if self.owner == me and self.depth:
+            self.depth += 1
+            return True
+        ok = FakeLock.acquire(self, blocking, timeout)
+        if ok:
+            self.depth = 1
+        return ok
+
+    def release(self):
+        s = FakeLock.sched
+        t = s.me() if s is not None else None
+        me = t.idx if t is not None else "main"
+        if self.owner != me or not self.depth:
+            raise RuntimeError("cannot release un-acquired lock")
+        self.depth -= 1
+        if self.depth == 0:
+            FakeLock.release(self)
+
+    __enter__ = acquire
+
+
+class _FakeThreadingMeta(type):
+    def __getattr__(cls, name):
+        # anything that is not a lock (current_thread, get_ident, local, ...) is the real thing:
+        # every scheduled thread is a real thread, only one of them runs at a time
+        import threading as _real
+        return getattr(_real, name)
+
+
+class FakeThreadingModule(metaclass=_FakeThreadingMeta):
     """stands in for the ``threading`` name inside ecdsa._rwlock"""
 
     Lock = FakeLock
+    RLock = FakeRLock
 
 
 # ---------------------------------------------------------------------- sys.monitoring
